@@ -282,6 +282,12 @@ func (f *effFrame) markWritten(roots map[string]bool, pos token.Pos, why string)
 			if _, ok := f.sum.globals[g]; !ok {
 				f.sum.globals[g] = fmt.Sprintf("%s at %s", why, f.posStr(pos))
 			}
+			// the write happens in (or through a pointer handed out by) this function: copy/append into a package-level
+			// buffer, a package-level object passed to a callee that writes its parameter, a method with pointer
+			// receiver of an external type called on a package-level variable (sync.Pool, ...)
+			if _, ok := f.sum.direct[g]; !ok {
+				f.sum.direct[g] = fmt.Sprintf("%s at %s", why, f.posStr(pos))
+			}
 		}
 	}
 }
@@ -574,9 +580,16 @@ func (f *effFrame) call(c *ast.CallExpr) {
 		args = append([]ast.Expr{recv}, args...)
 	}
 	writeAll := func(why string) {
-		for _, a := range args {
+		for i, a := range args {
 			if pointerish(info.TypeOf(a)) {
 				f.markWritten(f.roots(a, false), c.Pos(), why)
+			} else if i == 0 && recv != nil && fn != nil {
+				// x.M() with M declared on *T and x an addressable T (for example a package-level sync.Pool): &x is passed
+				if sig, ok := fn.Type().(*types.Signature); ok && sig.Recv() != nil {
+					if _, isPtr := sig.Recv().Type().Underlying().(*types.Pointer); isPtr {
+						f.markWritten(f.roots(a, false), c.Pos(), why)
+					}
+				}
 			}
 		}
 	}
